@@ -65,18 +65,39 @@
                   nothing written)
      cur_val s    what a GET issued now would return
 
-   Theorems (Proofs/CasProtoProofs.v), all for EVERY schedule:
-     cas_linearizable     chain + cur_val = last version + per client the
-                          commits are exactly its FCommit results, in program
-                          order + program bookkeeping + every FAbort output is
-                          decide's answer to a version that existed
-     cas_sequential       cur_val (run ..) = seq_exec v0 [(k_now,k_op) of the log]
+   Theorems (Proofs/CasProtoProofs.v), all for EVERY schedule, any number of
+   clients, any programs, s := run decide extra_gets max_retries sched
+   (init_sys v0 now0 progs):
+     cas_linearizable     (1) chain decide v0 (s_log s): every commit was decided
+                          against the version written by its predecessor;
+                          (2) cur_val s = last_val v0 (s_log s);
+                          (3) per client c: map op_out (by_client c (s_log s)) =
+                          successes (c_done (s_cl s c)) -- its commits are exactly
+                          its FCommit results, in program order, so FAbort /
+                          FRetries operations wrote nothing;
+                          (4) done ++ inflight ++ todo = progs c;
+                          (5) every FAbort output is decide's answer to a version
+                          that existed (hist)
+     cas_sequential       cur_val s = seq_exec decide v0 (log_ops (s_log s))
+                          (atomic one-at-a-time execution in commit order)
      cas_invariant        I v0, I preserved by committing decides  ==>  I holds
                           of every version ever written and of every cur_val
-     cas_create_once      only the first commit can be a creation, and only
-                          when the object was absent initially
+     cas_invariant_ops    the same when only operations satisfying P (which all
+                          programs do) are known to preserve I
+     cas_log_ops_in_progs every commit's operation is in its client's program
+     cas_create_once      only the first commit can be a creation (k_prev = None),
+                          and only when the object was absent initially
      cas_failures_write_nothing
-     cas_times_ordered    decide time <= PUT time <= next decide time
+     cas_times_ordered    times_chain: decide time <= PUT time <= decide time of
+                          the next commit; last PUT <= s_now (for lease TTLs)
+     run_invariant        carry an instance-specific state predicate P through
+                          every run, with the generic invariant Inv (ETag /
+                          snapshot facts: pc_ok) available in the step case
+   How an instance uses them: see Model/Shard.v + Proofs/ShardProofs.v (C13) and
+   Model/CatalogCas.v + Proofs/CatalogCasProofs.v (C02).  Harness side: the
+   crate harness/props/cascommon drives real clients one request per step and
+   returns the executed schedule; ocaml/drivers/c13_main.ml shows how a driver
+   names the kind of every step (G / Pc+ / Pc- / Pu+ / Pu-).
    --------------------------------------------------------------------------- *)
 From CS Require Import Base.Prelude.
 
